@@ -509,6 +509,29 @@ impl EmitScope {
         }
     }
 
+    /// A bare label name used outside the weave that declares it: labels are visible from
+    /// everywhere in their knot (its own weave and all of its stitches).
+    fn resolve_label_in_knot<'a>(&self, name: &str, context: &'a EmitContext) -> Option<&'a String> {
+        if name.contains('.') || context.global_variables.contains(name) {
+            return None;
+        }
+        let knot = self.top_flow_name.as_ref()?;
+        if let Some(path) = context.qualified_choice_labels.get(&format!("{knot}.{name}")) {
+            return Some(path);
+        }
+        let prefix = format!("{knot}.");
+        let suffix = format!(".{name}");
+        let mut hits = context
+            .qualified_choice_labels
+            .iter()
+            .filter(|(key, _)| key.starts_with(&prefix) && key.ends_with(&suffix));
+        let first = hits.next()?;
+        if hits.next().is_some() {
+            return None;
+        }
+        Some(first.1)
+    }
+
     fn with_param_offset(&self, param_offset: usize) -> Self {
         Self {
             param_offset,
